@@ -195,7 +195,7 @@ class PhaseHistory(Unit):
     reflected the next time the phase is read (multi-step history: read, change, read again)"""
     name = "phase after set_delay (history)"
     target = "rex/node.py::BaseNode.set_delay"
-    props = ("C16",)
+    props = ("C16", "C04")
 
     def opts(self, cfg):
         # a delay distribution is an opaque leaf here; its quantile (the constructors' default expected delay) is an uninterpreted non-negative real
@@ -414,6 +414,9 @@ class AlgebraicLoop(Unit):
             yield f"cycle of {L}, no connection skipped", dict(L=L, skipped=None)
             yield f"cycle of {L}, one connection skipped", dict(L=L, skipped=L - 1)
         yield "cycle of 2 plus an acyclic input", dict(L=2, skipped=None, extra=True)
+        # history: the loop is reported first, then repaired by skipping one of its connections - the report must not outlive the loop
+        yield "cycle of 3 reported, then repaired by skipping a connection", dict(L=3, skipped=None, repair=True)
+        yield "cycle of 2 reported twice, then repaired", dict(L=2, skipped=None, repair=True, twice=True)
 
     def opts(self, cfg):
         return {"reentry_raises": True}
@@ -444,6 +447,27 @@ class AlgebraicLoop(Unit):
             if raised is not None:
                 msg = raised.msg if isinstance(raised.msg, str) else ""
                 ctx.ensure("C16 ... whose message says 'Algebraic loop detected' and names the nodes of the loop", z3.BoolVal("Algebraic loop detected" in msg and all(n.f["name"] in msg for n in ns)))
+            if cfg.get("repair"):
+                if cfg.get("twice"):
+                    try:
+                        ex.getattr(ns[1], "phase")
+                        again = None
+                    except RaiseEx as e:
+                        again = e
+                    ctx.ensure("C16 the loop is reported again on the next query (from another node of the loop)", z3.BoolVal(again is not None and again.exc == "RecursionError"))
+                cs[L - 1].f["skip"] = True          # n_{L-1} -> n0 is skipped from now on
+                try:
+                    phs = [toz(ex.getattr(n, "phase")) for n in ns]
+                    err = None
+                except RaiseEx as e:
+                    phs, err = None, e
+                ctx.ensure("C16 once a connection of the loop is skipped the phases are computed again (the earlier report leaves nothing behind)", z3.BoolVal(err is None))
+                if phs is not None:
+                    want = [z3.RealVal(0)]
+                    for i in range(1, L):
+                        want.append(want[-1] + ns[i - 1].f["delay"] + cs[i - 1].f["delay"])
+                    ctx.ensure("C16 ... and equal the longest path over the non-skipped connections", z3.And([a == b for a, b in zip(phs, want)]))
+                    info = ex.getattr(ns[L - 1], "info") if False else None
         else:
             ctx.ensure("C16 with one connection of the cycle skipped there is no algebraic loop: the phase is computed", z3.BoolVal(raised is None))
             if raised is None:
@@ -454,6 +478,7 @@ class AlgebraicLoop(Unit):
                     ctx.ensure("C16 ... next node of the chain: sender phase + sender delay + connection delay", p1 == ns[0].f["delay"] + cs[0].f["delay"])
 
 
+AlgebraicLoop.replay = lambda self, label, clause, probes, model: ({"kind": "pure", "which": "cycle_repaired", "L": 3 if "of 3" in label else 2, "twice": "twice" in label} if "repaired" in label else None)
 UNITS.append(AlgebraicLoop())
 UNITS += [Ctor("BaseNode"), Ctor("Connection"), FromInfo()]
 
